@@ -32,7 +32,7 @@ def Mat(tokens):
   return ''.join(chr(t[1]) if t[0] == 'l' else '${%s}' % t[1] for t in tokens)
 
 
-def RunModel(cfg, simulate=None, seed=None, timeout=1500):
+def RunModel(cfg, simulate=None, seed=None, timeout=3400):
   """TLC on Flags.tla with the given cfg.  Returns (TlcResult, [case])."""
   r = tlc.Run('Flags', cfg=cfg + '.cfg', timeout=timeout, tag='c10flags',
               simulate=simulate, seed=seed,
@@ -300,7 +300,8 @@ def Validate(records, tag, nshards=None, timeout=3000):
     paths.append(path)
 
   def One(path):
-    return tlc.Run('FlagsTrace', workers=1, env={'TRACE_FILE': path},
+    return tlc.Run('FlagsTrace', workers=1, env={'TRACE_FILE': path,
+                        'JAVA_TOOL_OPTIONS': '-XX:ParallelGCThreads=2'},
                    timeout=timeout, tag=tag, heap='2g')
   with cf.ThreadPoolExecutor(max_workers=common.NCPU) as ex:
     results = list(ex.map(One, paths))
